@@ -21,7 +21,24 @@ def _fn_of_call(ctx, e):
     for fid in (e[1],):
         if fid and fid in F.fns:
             return F.fns[fid]
+    # a trait method call that the compiler resolved to a workspace impl (`Self::from_iter(x)`, `value.into()`)
+    try:
+        r = F.fns[e[4][-2]].blocks[e[4][-1]]["term"].get("res") or {}
+        res = r.get("def")
+        via = (r.get("via_from") or {}).get("def")        # x.into() dispatching to a workspace `impl From`
+    except Exception:
+        res = via = None
+    for fid in (via, res):
+        if fid and fid in F.fns:
+            return F.fns[fid]
     return None
+
+
+def collected_in_order(src):
+    """pattern: the Vec of the items of `src`, in order - `src.into_iter().collect()` or `Vec::from_iter(src)`"""
+    a = Call("Iterator::collect", Call("IntoIterator::into_iter", src, nargs=1), nargs=1)
+    b = Call("FromIterator::from_iter", src, nargs=1)
+    return lambda e: match(e, a) or (match(e, b) and (e[2] or "").startswith("<std::vec::Vec<"))
 
 
 def flatten(ctx, e, depth=0, seen=()):
@@ -157,7 +174,7 @@ TABLES = {
            ("max_stack_size", "values"), "push::push_vm::stack::Stack"),
     ],
     "C05": [
-        _t("Plushy::new-collects-the-genes-in-order", "push::genome::plushy::Plushy::new", Agg("Plushy::Plushy", Call("Iterator::collect", Call("IntoIterator::into_iter", Param(1), nargs=1), nargs=1))),
+        _t("Plushy::new-collects-the-genes-in-order", "push::genome::plushy::Plushy::new", Agg("Plushy::Plushy", collected_in_order(Param(1)))),
         _t("Plushy::get_genes-returns-a-copy-of-the-genes", "push::genome::plushy::Plushy::get_genes", Call("Clone::clone", lambda e: _self_field(e, "genes"), nargs=1)),
         _t("PushGene::from(instruction)=Instruction(into)", "<push::genome::plushy::PushGene as std::convert::From<T>>::from", Agg("PushGene::Instruction", Call("Into::into", Param(1), nargs=1))),
     ],
